@@ -62,3 +62,14 @@ Theorem C16_trigger_after_stop_every_parked_callback_gives_up : forall ops i x,
   (ti_phase x = TSending -> ti_cancelled x = true) /\ ti_phase x <> TRunning /\ ti_phase x <> TPending.
 Proof. exact after_stop_every_parked_instance_gives_up. Qed.
 Print Assumptions C16_trigger_after_stop_every_parked_callback_gives_up.
+
+(* the shutdown case in one statement: Stop, then time passes and no reader ever comes back (the main loop is gone) -
+   no goroutine of the trigger is left in triggerElections; without the Stop one would be (the example) *)
+Theorem C16_trigger_shutdown_leaves_nothing_parked : forall ops, tm_public_parked (ops ++ [PStop; PGiveUp]) = 0%nat.
+Proof. exact shutdown_leaves_nothing_parked. Qed.
+Print Assumptions C16_trigger_shutdown_leaves_nothing_parked.
+
+Theorem C16_trigger_stop_is_what_releases :
+  tm_public_parked [PRegister 1 0; PFire; PGiveUp] = 1%nat /\ tm_public_parked [PRegister 1 0; PFire; PStop; PGiveUp] = 0%nat.
+Proof. exact parked_without_stop. Qed.
+Print Assumptions C16_trigger_stop_is_what_releases.
